@@ -264,6 +264,56 @@ def line_case(rng, kind, what=None):
     return w, exp
 
 
+def range_surface_cases(rng):
+    """'a model applies only inside its own min/max range' when that range is a depth SURFACE: every area feature kind x every model kind x the four
+    constant / value-at-points combinations of the model's min and max depth.  The surfaces are affine (every corner listed with the value of one affine
+    function), so the local bound at a query point is that function whatever triangulation is used."""
+    for kind in ("continental plate", "oceanic plate", "mantle layer"):
+        for what in ("T", "C", "V", "G"):
+            for combo in ("const/const", "const/surface", "surface/const", "surface/surface"):
+                w = {"version": "1.1", "features": []}
+                gl = G(rng, w)
+                f = {"model": kind, "name": "f", "coordinates": SQ, "min depth": 0, "max depth": 500e3}
+                def surf(base):
+                    bx, by = rng.choice([-0.02, 0.0, 0.01, 0.03]), rng.choice([-0.01, 0.0, 0.02])
+                    fn = lambda q, base=base, bx=bx, by=by: base + bx * q[0] + by * q[1]
+                    return fn, [[fn(c), [list(c)]] for c in SQ]
+                mnc, mxc = combo.split("/")
+                mn0, mx0 = rng.choice([40e3, 60e3]), rng.choice([180e3, 220e3])
+                if mnc == "surface":
+                    fmn, emn = surf(mn0)
+                else:
+                    fmn, emn = (lambda q, v=mn0: v), mn0
+                if mxc == "surface":
+                    fmx, emx = surf(mx0)
+                else:
+                    fmx, emx = (lambda q, v=mx0: v), mx0
+                m = {"min depth": emn, "max depth": emx}
+                name = "%s %s range %s" % (kind, {"T": "temperature uniform", "C": "composition uniform", "V": "velocity uniform raw", "G": "grains uniform"}[what], combo)
+                exp = []
+                pts = []
+                for _ in range(6):
+                    q = [rng.uniform(-450e3, 450e3), rng.uniform(-450e3, 450e3)]
+                    lo, hi = fmn(q), fmx(q)
+                    for d, inside in ((lo * (1 - 1e-6) - 1.0, False), (lo * (1 + 1e-6) + 1.0, True), ((lo + hi) / 2, True), (hi * (1 - 1e-6) - 1.0, True), (hi * (1 + 1e-6) + 1.0, False),
+                                      (max(mx0, hi) + 12e3, False), (min(mn0, lo) - 12e3, False)):
+                        pts.append((q, d, inside))
+                if what == "T":
+                    m.update({"model": "uniform", "temperature": 777.0}); f["temperature models"] = [m]
+                    exp = [(q, d, (1, 0, 0), [777.0 if ins else gl.adiabat(d)], ins, name) for (q, d, ins) in pts]
+                elif what == "C":
+                    m.update({"model": "uniform", "compositions": [1], "fractions": [0.75]}); f["composition models"] = [m]
+                    exp = [(q, d, (2, 1, 0), [0.75 if ins else 0.0], ins, name) for (q, d, ins) in pts]
+                elif what == "V":
+                    m.update({"model": "uniform raw", "velocity": [0.01, -0.02, 0.03]}); f["velocity models"] = [m]
+                    exp = [(q, d, (5, 0, 0), [0.01, -0.02, 0.03] if ins else [0.0, 0.0, 0.0], ins, name) for (q, d, ins) in pts]
+                else:
+                    m.update({"model": "uniform", "compositions": [0], "grain sizes": [0.25], "rotation matrices": [[[0, -1, 0], [1, 0, 0], [0, 0, 1]]]}); f["grains models"] = [m]
+                    exp = [(q, d, (3, 0, 2), ([0.25, 0.25] + [0.0, -1.0, 0.0, 1.0, 0.0, 0.0, 0.0, 0.0, 1.0] * 2) if ins else [0.0] * 20, ins, name) for (q, d, ins) in pts]
+                w["features"].append(f)
+                yield w, exp
+
+
 def structured_cases(rng, rounds):
     """every (feature kind x documented model) combination is visited in turn; parameters, sentinels and ranges are drawn at random"""
     plan = []
@@ -276,6 +326,8 @@ def structured_cases(rng, rounds):
     for wi in range(rounds * len(plan)):
         kind, what, tname = plan[wi % len(plan)]
         yield plume_case(rng) if kind == "plume" else (line_case(rng, kind, what) if kind in ("subducting plate", "fault") else area_case(rng, kind, what, tname))
+    # the full enumeration of range-surface combinations, once per run
+    yield from range_surface_cases(rng)
 
 
 def correspondence(seed, tier):
@@ -290,7 +342,7 @@ def correspondence(seed, tier):
     for wi, (w, exp) in enumerate(structured_cases(rng, budget(tier, 2, 20))):
         path = os.path.join(wdir, "s_%d.wb" % wi)
         json.dump(w, open(path, "w"))
-        lines.append("world w %s -" % path)
+        lines.append("world w %s - aux %s.aux" % (path, path))
         lines += [q3("w", [p[0], p[1], 1000e3 - d], d, [pr]) for (p, d, pr, e, nt, nm) in exp]
         lines.append("free w")
     rs.append(corr_lines(lines))
